@@ -622,7 +622,14 @@ class Parser(object):
         """
         # The END_OF_INPUT token is explicitly added to avoid explicit "cursor <
         # len(tokens)" checks.
-        tokens = list(tokens) + [Symbol(END_OF_INPUT)]
+        tokens = list(tokens)
+        # Give the END_OF_INPUT token the (zero-width) location just past the last
+        # real token, so that errors at end of input can be reported to the user.
+        end_location = None
+        if tokens and getattr(tokens[-1], "source_location", None):
+            end_position = tokens[-1].source_location.end
+            end_location = parser_types.SourceLocation(end_position, end_position)
+        tokens.append(parser_types.Token(END_OF_INPUT, "", end_location))
 
         # Each element of stack is a parse state and a (possibly partial) parse
         # tree.  The state at the top of the stack encodes which productions are
